@@ -144,6 +144,42 @@ fn paris_job(seed: u64, j: usize, tier: Tier) -> Outcome {
     tcfg.min_round = ms(300);
     tcfg.max_round = ms(300);
     tcfg.ports = cell.port_direction(5000 + (k as u16 % 3) * 7919, 33_500 + (k as u16 % 3) * 101);
+    // a boundary of one's complement arithmetic (IPv6, privileged): every fourth walk starts at an
+    // initial sequence for which one probe of the first round has a checksum that computes to
+    // zero before the swap (the datagram is ports, length 10, checksum, the 2 octet sequence)
+    let mut zero_case = false;
+    if cell.v6 && !cell.unprivileged && k % 4 == 3 {
+        if let (std::net::IpAddr::V6(dst), Some((fixed, varies_dest))) = (
+            tcfg.target,
+            match tcfg.ports {
+                trippy_core::PortDirection::FixedSrc(p) => Some((p.0, true)),
+                trippy_core::PortDirection::FixedDest(p) => Some((p.0, false)),
+                _ => None,
+            },
+        ) {
+            let pseudo = wire::pseudo6(crate::scen::host_v6(), dst, PROTO_UDP, 10);
+            'search: for init in 1024u16..60_000 {
+                let (sp, dp) = if varies_dest { (fixed, init) } else { (init, fixed) };
+                for jj in 0..250u16 {
+                    let sq = init + jj;
+                    let mut u = Vec::with_capacity(10);
+                    u.extend_from_slice(&sp.to_be_bytes());
+                    u.extend_from_slice(&dp.to_be_bytes());
+                    u.extend_from_slice(&10u16.to_be_bytes());
+                    u.extend_from_slice(&[0, 0]);
+                    u.extend_from_slice(&sq.to_be_bytes());
+                    if wire::csum(&[&pseudo, &u]) == 0 {
+                        tcfg.initial_sequence = init;
+                        zero_case = true;
+                        break 'search;
+                    }
+                }
+            }
+        }
+    }
+    if zero_case {
+        o.count("paris_walks_with_a_probe_whose_checksum_computes_to_zero", 1);
+    }
     let mut t = HopSpec::simple(tcfg.target, 1_000_000);
     t.behaviour = Behaviour::Silent;
     let topo = Topology { hops: Vec::new(), target: t, tcp: TcpMode::Silent };
